@@ -4,6 +4,7 @@ from sa import tables as T
 from sa import controls as K
 from sa import effects as E
 from sa import excs as X
+from sa import paths as P
 
 
 def _t(rule_fn, **kw):
@@ -34,6 +35,7 @@ FLOORS = {
     "F1": 10, "F2": 10, "F3": 10, "F4": 8, "F5": 25, "F6": 3, "F7": 2, "F8": 8, "O1": 30,
     "O2": 6, "O3": 20, "S1": 20,
     "X1": 5, "X2": 40, "X3": 6,
+    "P1": 5, "P2": 5, "P3": 5, "P4": 2, "P5": 3, "P6": 9, "P7": 5,
 }
 
 PROPERTIES = {}
@@ -228,6 +230,66 @@ prop(
 )
 
 prop(
+    "C01",
+    anchor_modules=ENGINE_MODS,
+    rules=[P.rule_P1, P.rule_P2, P.rule_P3, P.rule_P4],
+    controls=[K.ctl_offer_completed_entries, K.ctl_stage_without_criteria,
+              K.ctl_keep_started_task_staged],
+    explanation=(
+        "Decides the necessary structural clauses of 'every execution is justified, exactly "
+        "once': every task get_next_tasks returns is built by get_task(id, route) of an entry "
+        "drawn, by filtering only, from the staged list with the ready / not-completed filter, "
+        "and the status machine's notion of 'work left' is that same call (P1); the offer loop "
+        "is gated by 'status in RUNNING_STATUSES or run-on-fail remediation' (P2); every "
+        "reachable call of add_staged_task, and every in-place extension of a staged entry, is "
+        "a start task, a retry re-stage, a rerun, or control-dependent on all(criteria) of that "
+        "very transition evaluated against make_task_context(record, task_result) (P3); a "
+        "started task is removed from staging before the task machine runs and a completed one "
+        "afterwards, with no extra condition (P4). NOT decided: the multiset equality between "
+        "executed tasks and what the definition prescribes over all graph shapes, outcome "
+        "assignments and completion orders; routes and cycle re-entry."),
+    assumptions=[A_ABS, A_AST],
+)
+
+prop(
+    "C07",
+    anchor_modules=ENGINE_MODS + ["composers.native", "graphing"],
+    rules=[P.rule_P5, P.rule_P7, E.rule_F7],
+    controls=[K.ctl_join_always_ready, K.ctl_join_threshold, K.ctl_drop_join_check],
+    explanation=(
+        "Decides the structural clauses of the join barrier: the ready flag of a staged entry is "
+        "recomputed as 'inbound criteria == SATISFIED' after every arrival (new entry or "
+        "extension of an existing one) and unreachable barriers are exactly the staged barrier "
+        "entries that are not ready with NOT_SATISFIED criteria (P5); SATISFIED is returned only "
+        "under 'number of distinct inbound tasks whose recorded transition decision is true, on "
+        "the same route, >= requirement' with requirement = all inbound tasks for '*' else the "
+        "graph node's barrier, and the composer sets a barrier only for join tasks ('*' iff "
+        "join: all) (P7); every function that assigns a workflow status from the table and can "
+        "reach succeeded runs the unreachable-join check afterwards (F7). NOT decided: counting "
+        "per arrival order over histories; 'once per satisfaction' for join: N when further "
+        "branches arrive after the join started (the engine has no construct for it)."),
+    assumptions=[A_ABS, A_AST],
+)
+
+prop(
+    "C13",
+    anchor_modules=ENGINE_MODS,
+    rules=[P.rule_P6, _t(T.rule_T4e)],
+    controls=[K.ctl_retry_off_by_one],
+    explanation=(
+        "Decides the structural clauses of retry: the retry decision (an if whose test calls "
+        "_evaluate_task_retry) precedes, in update_task_state, every write of transition "
+        "decisions / outgoing contexts / context deltas and the workflow event; its true branch "
+        "leaves the function; the transition block's guards imply the decision's guards; inside "
+        "_evaluate_task_retry every 'return True' is dominated by 'tally < count' (tally and "
+        "count being reads of the record's retry entry); the tally increment and the re-stage "
+        "with the retry record are in the same 'new status == retrying' block; the retry delay "
+        "reaches the offer; retrying is entered only from a completed status by the retry "
+        "command (T4e). NOT decided: the bound n+1 per visit across loops and reruns."),
+    assumptions=[A_ABS, A_AST],
+)
+
+prop(
     "C18",
     anchor_modules=ENGINE_MODS,
     rules=[E.rule_F1, E.rule_F2, E.rule_F3, _t(T.rule_T4e), E.rule_O1, E.rule_O2],
@@ -260,6 +322,11 @@ NOT_APPLICABLE = {
 PENDING = {}
 
 TECHNIQUE = {
+    "C01": "provenance and guard-set analysis of get_next_tasks / update_task_state (ast, "
+           "structured control dependence) + call-site classification from the resolved call graph",
+    "C07": "guard-set and value-origin analysis of the join readiness code; must-follow check of "
+           "the unreachable-join test",
+    "C13": "ordering (must-precede) and guard-dominance analysis of the retry decision",
     "C11": "exception-escape analysis: call-chain enumeration over the resolved call graph with "
            "lexical try/except containment; evaluator wrapping contract",
     "C04": "typestate analysis of terminal rows + effect analysis (who writes the status; no "
